@@ -264,6 +264,9 @@ def build_modular(case, inline=False):
     bodies, main, const_decl = modular_texts(case, pr)
     const_decl = list(const_decl) + bound_const_decl(case)
     declared = list(used)
+    if case.get('surplus'):
+        # a variable that is declared (and supplied with data by feed()) although no requirement reads it
+        declared.append(case['surplus'])
     if case['declare_names']:
         declared += [n for n, _ in bodies]
     if case['delivery'] == 'add_sub_spec':
@@ -321,31 +324,61 @@ def build_modular(case, inline=False):
     return build(base_kind, text, declared, consts=const_decl, subspecs=subspecs, pastify=(kind == 'dt_on_past'), **ia)
 
 
-def feed(case, spec, collect=None):
+def surplus_value(i):
+    """Sample number i of the surplus variable of a case (case['surplus']): any data would do, it is never read."""
+    return float((7 * i) % 5) - 1.5
+
+
+def feed(case, spec, collect=None, supplied=None):
     """Run the data of the case through spec; returns the list of outputs (one per call).
-    collect(spec, call_index) is invoked after every call."""
+    collect(spec, call_index) is invoked after every call. A case with a surplus variable supplies data for it in every
+    call (where it stands in the call is part of the case); `supplied` receives what each call handed over for it."""
     kind = case['kind']
     f = from_json(case['formula'])
     used = [v for v in case['vars'] if v in F.fvars(f)]
+    sur = case.get('surplus')
+    pos = case.get('surplus_pos', 0)
     outs = []
+
+    def place(items, item):
+        items = list(items)
+        items.insert(min(pos, len(items)), item)
+        return items
     if kind == 'dt_off':
         n = len(case['trace'][used[0]])
         ds = {'time': [float(i) for i in range(n)]}
         for v in used:
             ds[v] = [float(x) for x in case['trace'][v]]
+        if sur:
+            ds[sur] = [surplus_value(i) for i in range(n)]
+            if supplied is not None:
+                supplied.append(list(ds[sur]))
         outs.append(spec.evaluate(ds))
         if collect:
             collect(spec, 0)
     elif kind in ('dt_on', 'dt_on_past'):
         n = len(case['trace'][used[0]])
         for i in range(n):
-            outs.append(spec.update(i, [(v, float(case['trace'][v][i])) for v in used]))
+            args = [(v, float(case['trace'][v][i])) for v in used]
+            if sur:
+                args = place(args, (sur, surplus_value(i)))
+                if supplied is not None:
+                    supplied.append(surplus_value(i))
+            outs.append(spec.update(i, args))
             if collect:
                 collect(spec, i)
     else:
         sig = to_time({v: [(int(k), float(x)) for k, x in case['signals'][v]] for v in used}, Q)
+        if sur:
+            # sampled at the instants of the first variable the requirements read
+            sig[sur] = [[t, surplus_value(i)] for i, (t, _) in enumerate(sig[used[0]])]
         if kind == 'ct_off':
-            outs.append(spec.evaluate(*[[v, sig[v]] for v in used]))
+            args = [[v, sig[v]] for v in used]
+            if sur:
+                args = place(args, [sur, sig[sur]])
+                if supplied is not None:
+                    supplied.append([list(s) for s in sig[sur]])
+            outs.append(spec.evaluate(*args))
             if collect:
                 collect(spec, 0)
         else:
@@ -357,6 +390,11 @@ def feed(case, spec, collect=None):
             ci = 0
             for hi in cuts + [float('inf')]:
                 batch = [[v, [s for s in sig[v] if lo < s[0] <= hi]] for v in used]
+                if sur:
+                    sb = [s for s in sig[sur] if lo < s[0] <= hi]
+                    batch = place(batch, [sur, sb])
+                    if supplied is not None:
+                        supplied.append([list(s) for s in sb])
                 outs.append(spec.update(*batch))
                 if collect:
                     collect(spec, ci)
